@@ -72,7 +72,17 @@ Correct == /\ pc = "refused"
            /\ case' = Corrected(case) /\ pc' = "idle"
            /\ UNCHANGED <<outdir, loc, idx, meta, attempts>>
 
-MNext == Validate \/ Mkdir \/ Move \/ Index \/ Meta \/ Fault \/ Recover \/ Correct
+\* the operator takes a finished merged store apart again (files back, directory removed) and merges the same
+\* stores in ANOTHER order into the same output path, in the same process: the new store reads in the new order
+\* (nothing about the first merge may survive - not on disk, not in the process)
+ReversedCase(c) == [i \in 1..Len(c) |-> c[Len(c) + 1 - i]]
+Rebuild == /\ pc = "done" /\ attempts = 1
+           /\ case' = ReversedCase(case)
+           /\ pc' = "idle" /\ outdir' = FALSE /\ idx' = FALSE /\ meta' = "absent"
+           /\ loc' = [k \in DOMAIN loc |-> "orig"]
+           /\ UNCHANGED attempts
+
+MNext == Validate \/ Mkdir \/ Move \/ Index \/ Meta \/ Fault \/ Recover \/ Correct \/ Rebuild
 MSpec == MInit /\ [][MNext]_mvars
 
 -----------------------------------------------------------------------------
